@@ -2,29 +2,20 @@
    allocator trace and does to the abstract pool exactly what the
    independent-strings specification says. *)
 From Coq Require Import List NArith Bool Lia Arith Permutation.
-From HV Require Import Base.Utf8 Tendril.Heap Tendril.TModel Tendril.TSpec Tendril.TUtf8 Tendril.TInv
+From HV Require Import Base.Utf8 Tendril.Heap Tendril.TModel Tendril.TSpec Tendril.TUtf8 Tendril.TWtf8 Tendril.TInv
      Tendril.TPrim Tendril.TFmt Tendril.TOps Tendril.TPool.
 Import ListNotations.
 Local Open Scope N_scope.
 
-(* the one place where the byte-level result is not the specification's:
-   push_tendril on WTF-8 takes the adjacent-slices shortcut without the surrogate
-   fix-up (unreachable for valid WTF-8, whose validity is not proved here) *)
-Definition wtf8_corner (o : op) (p : pool) : bool :=
-  match o with
-  | OPushT d _ => match get p d with Some (FWtf8, _) => true | _ => false end
-  | _ => false
-  end.
-
 Definition step_post (o : op) (s : st) (p : pool) : outcome * pool -> st -> list event -> Prop :=
   fun r s' ev => PInv s' (snd r) /\ trace_ok s ev s' /\ length (snd r) = length p /\ nxt s <= nxt s' /\
-                 (wtf8_corner o p = false -> spec_op o (abs s p) = (fst r, abs s' (snd r))).
+                 spec_op o (abs s p) = (fst r, abs s' (snd r)).
 
 Lemma same_post o s p out : PInv s p -> spec_op o (abs s p) = (out, abs s p) ->
   step_post o s p (out, p) s [].
 Proof.
   intros HP Hs. split; [exact HP|]. split; [apply trace_refl|]. split; [reflexivity|]. split; [lia|].
-  intros _. exact Hs.
+  exact Hs.
 Qed.
 
 Lemma wp_try {A} (m : M A) s (Q : A -> st -> list event -> Prop) (Ee E' : N -> Prop) :
@@ -42,7 +33,7 @@ Lemma inplace_post o s p i f t f' t' s' ev out X :
   PInv s p -> get p i = Some (f, t) ->
   post1 s (tendrils (set_nth i None p)) X t' s' ev ->
   fvalid_inv f' X = true ->
-  (wtf8_corner o p = false -> spec_op o (abs s p) = (out, set_nth i (Some (f', X)) (abs s p))) ->
+  spec_op o (abs s p) = (out, set_nth i (Some (f', X)) (abs s p)) ->
   step_post o s p (out, set_nth i (Some (f', t')) p) s' ev.
 Proof.
   intros [HI PV] G [A1 [A2 [A3 [A4 A5]]]] Hv Hs.
@@ -50,7 +41,7 @@ Proof.
   destruct (slot_update s s' p i f' t' X R A1 A2 A4) as [B1 B2].
   unfold step_post, PInv. cbn [fst snd]. split; [split; [exact B1|rewrite B2; apply pool_valid_set; auto]|].
   split; [exact A3|]. split; [apply set_nth_length|]. split; [exact A5|].
-  intros Hc. rewrite B2. apply Hs, Hc.
+  rewrite B2. exact Hs.
 Qed.
 
 Lemma exec_new s p d f bs : PInv s p -> wp (exec_op (ONew d f bs) p) s (step_post (ONew d f bs) s p) noerr.
@@ -67,7 +58,7 @@ Proof.
   rewrite A4, (abs_frame s s1 p A2) in B4.
   split; [split; [exact B1|rewrite B4; apply pool_valid_set; auto; apply fvalid_inv_of, V]|].
   split; [eapply trace_trans; [exact A3|]; rewrite app_nil_r; exact B2|]. split; [exact B3|]. split; [lia|].
-  intros _. cbn [spec_op]. rewrite sin_range_abs, R, V. cbn [negb]. rewrite B4. reflexivity.
+  cbn [spec_op]. rewrite sin_range_abs, R, V. cbn [negb]. rewrite B4. reflexivity.
 Qed.
 
 Lemma exec_withcap s p d f n : PInv s p -> wp (exec_op (OWithCap d f n) p) s (step_post (OWithCap d f n) s p) noerr.
@@ -82,7 +73,7 @@ Proof.
   rewrite A4, (abs_frame s s1 p A2) in B4.
   split; [split; [exact B1|rewrite B4; apply pool_valid_set; auto; apply fvalid_inv_nil]|].
   split; [eapply trace_trans; [exact A3|]; rewrite app_nil_r; exact B2|]. split; [exact B3|]. split; [lia|].
-  intros _. cbn [spec_op]. rewrite sin_range_abs, R. cbn [negb]. rewrite B4. reflexivity.
+  cbn [spec_op]. rewrite sin_range_abs, R. cbn [negb]. rewrite B4. reflexivity.
 Qed.
 
 Lemma exec_drop s p i : PInv s p -> wp (exec_op (ODrop i) p) s (step_post (ODrop i) s p) noerr.
@@ -95,7 +86,7 @@ Proof.
   pose proof (slot_clear s s1 p i A2) as B.
   split; [split; [exact A1|rewrite B; apply pool_valid_set_none, PV]|].
   split; [rewrite app_nil_r; exact A3|]. split; [apply set_nth_length|]. split; [lia|].
-  intros _. cbn [spec_op]. rewrite sget_abs, G, B. reflexivity.
+  cbn [spec_op]. rewrite sget_abs, G, B. reflexivity.
 Qed.
 
 Lemma exec_clear s p i : PInv s p -> wp (exec_op (OClear i) p) s (step_post (OClear i) s p) noerr.
@@ -106,7 +97,7 @@ Proof.
   step ltac:(apply clear_ok; apply (HInv_get _ _ _ _ _ HI G)).
   intros t' s1 e1 A. apply wp_ret. rewrite app_nil_r.
   eapply inplace_post; eauto; [apply fvalid_inv_nil|].
-  intros _. cbn [spec_op]. rewrite sget_abs, G. reflexivity.
+  cbn [spec_op]. rewrite sget_abs, G. reflexivity.
 Qed.
 
 Lemma abs_same_slot s p i f t : get p i = Some (f, t) -> set_nth i (Some (f, view s t)) (abs s p) = abs s p.
@@ -126,9 +117,10 @@ Proof.
   step ltac:(apply wp_try; apply try_push_bytes_ok; apply (HInv_get _ _ _ _ _ HI G)).
   intros [t'|e] s1 e1 Hr.
   - destruct Hr as [A V]. apply wp_ret. rewrite app_nil_r. rewrite validate_fvalid in V.
+    pose proof (pool_valid_get _ _ _ _ _ PV G) as Vt.
     eapply inplace_post; eauto.
-    + apply pushed_valid; [eapply pool_valid_get; eauto|exact V].
-    + intros _. cbn [spec_op]. rewrite sget_abs, G, V, pushed_sconcat. reflexivity.
+    + apply pushed_valid; [exact Vt|exact V].
+    + cbn [spec_op]. rewrite sget_abs, G, V, (pushed_sconcat f _ _ Vt V). reflexivity.
   - destruct Hr as [[-> V] [-> ->]]. apply wp_ret. rewrite validate_fvalid in V. apply same_post; [exact HP|].
     cbn [spec_op]. rewrite sget_abs, G, V. reflexivity.
 Qed.
@@ -148,20 +140,14 @@ Proof.
   apply fmt_eqb_eq in Hfg. subst g.
   step ltac:(apply push_tendril_ok with (fr := tendrils (set_nth d None p));
              [apply (HInv_get _ _ _ _ _ HI G)|eapply get_other_in; eauto]).
-  intros t' s1 e1 [A1 [A2 [A3 [A4 A5]]]]. apply wp_ret. rewrite app_nil_r.
+  intros t' s1 e1 A. apply wp_ret. rewrite app_nil_r.
   pose proof (pool_valid_get _ _ _ _ _ PV G) as Vt. pose proof (pool_valid_get _ _ _ _ _ PV G2) as Vo.
-  eapply inplace_post with (X := view s1 t'); eauto.
-  - split; [exact A1|]. split; [exact A2|]. split; [exact A3|]. split; [reflexivity|exact A4].
-  - destruct f; try reflexivity; rewrite pushed_plain in A5 by discriminate;
-      (assert (A6 : view s1 t' = view s t ++ view s o) by (destruct A5; auto)); rewrite A6;
-      apply fvalid_app; auto; discriminate.
-  - unfold wtf8_corner. rewrite G. intros Hc. cbn [spec_op]. rewrite !sget_abs, G, G2.
+  eapply inplace_post; eauto.
+  - apply pushed_valid; [exact Vt|exact Vo].
+  - cbn [spec_op]. rewrite !sget_abs, G, G2.
     destruct (Nat.eqb_spec d i); [congruence|]. cbn [orb].
     replace (fmt_eqb f f) with true by (destruct f; reflexivity). cbn [negb].
-    rewrite <- pushed_sconcat.
-    assert (A6 : view s1 t' = pushed f (view s t) (view s o)).
-    { destruct A5 as [A5|A5]; auto. rewrite pushed_plain; auto. destruct f; congruence. }
-    rewrite A6. reflexivity.
+    rewrite (pushed_sconcat f _ _ Vt Vo). reflexivity.
 Qed.
 
 Lemma assign_after_update s s1 p i d f t1 t2 E :
@@ -196,7 +182,7 @@ Proof.
   rewrite A4, A5, (abs_same_slot s p i f t G) in B5.
   split; [split; [exact B1|rewrite B5; apply pool_valid_set; auto; eapply pool_valid_get; eauto]|].
   split; [eapply trace_trans; [exact A3|]; rewrite app_nil_r; exact B2|]. split; [exact B3|]. split; [lia|].
-  intros _. cbn [spec_op]. rewrite sget_abs, G, sin_range_abs, R. cbn [negb]. rewrite B5. reflexivity.
+  cbn [spec_op]. rewrite sget_abs, G, sin_range_abs, R. cbn [negb]. rewrite B5. reflexivity.
 Qed.
 
 Lemma bounds_flip l off len : (l <? off) || (l - off <? len) = negb (in_bounds l off len).
@@ -222,7 +208,7 @@ Proof.
     rewrite (subseq_ok f _ off len Vt) in Hv.
     split; [split; [exact B1|rewrite B5; apply pool_valid_set; auto; apply sub_ok_valid, Hv]|].
     split; [eapply trace_trans; [exact A3|]; rewrite app_nil_r; exact B2|]. split; [exact B3|]. split; [lia|].
-    intros _. cbn [spec_op]. rewrite sget_abs, G, sin_range_abs, R. cbn [negb].
+    cbn [spec_op]. rewrite sget_abs, G, sin_range_abs, R. cbn [negb].
     rewrite Hlen, bounds_flip, Hb, Hv. cbn [negb]. rewrite B5. reflexivity.
   - destruct Hr as [Hr [-> ->]]. apply wp_ret. apply same_post; [exact HP|].
     cbn [spec_op]. rewrite sget_abs, G, sin_range_abs, R. cbn [negb]. rewrite Hlen, bounds_flip.
@@ -248,7 +234,7 @@ Proof.
       - rewrite N.sub_0_r, slice_full. exact Vt.
       - rewrite (suffix_ok_eq f _ n Vt) in Hv. apply suffix_ok_valid, Hv. }
     eapply inplace_post; eauto.
-    intros _. cbn [spec_op]. rewrite sget_abs, G.
+    cbn [spec_op]. rewrite sget_abs, G.
     destruct Hc as [->|[Hn Hv]].
     + cbn [N.eqb]. rewrite N.sub_0_r, slice_full, (abs_same_slot s p i f t G). reflexivity.
     + rewrite (suffix_ok_eq f _ n Vt) in Hv.
@@ -281,7 +267,7 @@ Proof.
       - rewrite N.sub_0_r, slice_full. exact Vt.
       - rewrite (prefix_ok_eq f _ _ Vt) in Hv. apply prefix_ok_valid, Hv. }
     eapply inplace_post; eauto.
-    intros _. cbn [spec_op]. rewrite sget_abs, G.
+    cbn [spec_op]. rewrite sget_abs, G.
     destruct Hc as [->|[Hn Hv]].
     + cbn [N.eqb]. rewrite N.sub_0_r, slice_full, (abs_same_slot s p i f t G). reflexivity.
     + rewrite (prefix_ok_eq f _ _ Vt) in Hv.
@@ -350,9 +336,9 @@ Proof.
     rewrite A5, A6 in B5.
     split; [split; [exact B1|rewrite B5; apply pool_valid_set; auto; apply pool_valid_set; auto]|].
     split; [eapply trace_trans; [exact A3|]; rewrite app_nil_r; exact B2|]. split; [exact B3|]. split; [lia|].
-    intros _. rewrite Hs, B5. reflexivity.
+    rewrite Hs, B5. reflexivity.
   - destruct Hr as [-> [-> [-> T]]]. apply wp_ret. rewrite app_nil_r.
-    split; [exact HP|]. split; [exact T|]. split; [reflexivity|]. split; [lia|]. intros _. exact Hs.
+    split; [exact HP|]. split; [exact T|]. split; [reflexivity|]. split; [lia|]. exact Hs.
 Qed.
 
 Lemma exec_pushchar s p i c :
@@ -368,9 +354,10 @@ Proof.
   step ltac:(apply wp_try; apply try_push_char_ok; apply (HInv_get _ _ _ _ _ HI G)).
   intros [t'|e] s1 e1 Hr.
   - destruct Hr as [enc [He A]]. apply wp_ret. rewrite app_nil_r.
+    pose proof (encode_char_valid f c enc Hc He) as Ve.
     eapply inplace_post; eauto.
-    + apply pushed_valid; [exact Vt|eapply encode_char_valid; eauto].
-    + intros _. cbn [spec_op]. rewrite sget_abs, G, Hf, Hc, He, pushed_sconcat. reflexivity.
+    + apply pushed_valid; [exact Vt|exact Ve].
+    + cbn [spec_op]. rewrite sget_abs, G, Hf, Hc, He, (pushed_sconcat f _ _ Vt Ve). reflexivity.
   - destruct Hr as [[-> He] [-> ->]]. apply wp_ret. apply same_post; [exact HP|].
     cbn [spec_op]. rewrite sget_abs, G, Hf, Hc, He. reflexivity.
 Qed.
@@ -384,7 +371,7 @@ Proof.
   step ltac:(apply extend_ok; apply (HInv_get _ _ _ _ _ HI G)).
   intros t' s1 e1 A. apply wp_ret. rewrite app_nil_r.
   eapply inplace_post; eauto.
-  intros _. cbn [spec_op]. rewrite sget_abs, G. reflexivity.
+  cbn [spec_op]. rewrite sget_abs, G. reflexivity.
 Qed.
 
 Lemma exec_send s p d i : PInv s p -> wp (exec_op (OSend d i) p) s (step_post (OSend d i) s p) noerr.
@@ -402,7 +389,7 @@ Proof.
   split; [split; [exact B1|rewrite B4; apply pool_valid_set; [apply pool_valid_set_none, PV|eapply pool_valid_get; eauto]]|].
   split; [eapply trace_trans; [exact A3|]; rewrite app_nil_r; exact B2|].
   split; [rewrite B3; apply set_nth_length|]. split; [lia|].
-  intros _. cbn [spec_op]. rewrite sget_abs, G, sin_range_abs, R. cbn [negb]. rewrite B4. reflexivity.
+  cbn [spec_op]. rewrite sget_abs, G, sin_range_abs, R. cbn [negb]. rewrite B4. reflexivity.
 Qed.
 
 Lemma exec_reint s p i g : PInv s p -> wp (exec_op (OReint i g) p) s (step_post (OReint i g) s p) noerr.
@@ -415,13 +402,13 @@ Proof.
   intros x s1 e1 [-> [-> T1]]. rewrite validate_fvalid.
   destruct (fvalid g (view s t)) eqn:V.
   - apply wp_ret. rewrite app_nil_r.
-    eapply inplace_post with (X := view s t); eauto.
+    apply (inplace_post (OReint i g) s p i f t g t s e1 ROk (view s t) HP G).
     + split; [exact HIt|]. split; [apply frame_refl|]. split; [exact T1|]. split; [reflexivity|lia].
     + apply fvalid_inv_of, V.
-    + intros _. cbn [spec_op]. rewrite sget_abs, G, V. reflexivity.
+    + cbn [spec_op]. rewrite sget_abs, G, V. reflexivity.
   - apply wp_ret. rewrite app_nil_r.
     split; [exact HP|]. split; [exact T1|]. split; [reflexivity|]. split; [lia|].
-    intros _. cbn [spec_op]. rewrite sget_abs, G, V. reflexivity.
+    cbn [spec_op]. rewrite sget_abs, G, V. reflexivity.
 Qed.
 
 Lemma exec_reserve s p i n : PInv s p -> wp (exec_op (OReserve i n) p) s (step_post (OReserve i n) s p) noerr.
@@ -432,7 +419,7 @@ Proof.
   step ltac:(apply reserve_ok; apply (HInv_get _ _ _ _ _ HI G)).
   intros t' s1 e1 A. apply wp_ret. rewrite app_nil_r.
   eapply inplace_post; eauto; [eapply pool_valid_get; eauto|].
-  intros _. cbn [spec_op]. rewrite sget_abs, G, (abs_same_slot s p i f t G). reflexivity.
+  cbn [spec_op]. rewrite sget_abs, G, (abs_same_slot s p i f t G). reflexivity.
 Qed.
 
 Lemma set_nth_byte_len i b (x : list N) : i < llen x -> llen (set_nth_byte i b x) = llen x.
@@ -454,7 +441,7 @@ Proof.
   step ltac:(apply overwrite_ok; [exact HIt|apply set_nth_byte_len; lia]).
   intros t' s1 e1 A. apply wp_ret. rewrite app_nil_r.
   eapply inplace_post; eauto.
-  intros _. cbn [spec_op]. rewrite sget_abs, G, Hlen. replace (tlen t <=? k) with false by (symmetry; apply N.leb_gt; lia).
+  cbn [spec_op]. rewrite sget_abs, G, Hlen. replace (tlen t <=? k) with false by (symmetry; apply N.leb_gt; lia).
   rewrite C2. reflexivity.
 Qed.
 
@@ -469,11 +456,11 @@ Proof.
   - step ltac:(apply overwrite_ok; [exact HIt|apply llen_map]).
     intros t' s1 e1 A. apply wp_ret. rewrite app_nil_r.
     eapply inplace_post; eauto.
-    intros _. cbn [spec_op]. rewrite sget_abs, G. reflexivity.
+    cbn [spec_op]. rewrite sget_abs, G. reflexivity.
   - step ltac:(apply overwrite_ok; [exact HIt|apply llen_map]).
     intros t' s1 e1 A. apply wp_ret. rewrite app_nil_r.
-    eapply inplace_post; eauto; [apply (upper_valid FUtf8), Vt|].
-    intros _. cbn [spec_op]. rewrite sget_abs, G. reflexivity.
+    eapply inplace_post; eauto; [apply (upper_valid FUtf8); [discriminate|exact Vt]|].
+    cbn [spec_op]. rewrite sget_abs, G. reflexivity.
 Qed.
 
 (* ---------------------------------------------------------------- all operations *)
